@@ -11,7 +11,15 @@ Graphs = (a) lexical: every sequence of symbols of a colliding alphabet x every 
          (c) the complete one-atom sweep: every element, isotope, ion and isotope ion of the table,
              plus the undefined neighbours (isotope A+-1, charges in [-9, 9]);
          (d) a fixed list of malformations applied at every token slot of every sentence of a base
-             set of (b).
+             set of (b); + every spelling (as written, lower, upper, capitalised) of every OTHER token of
+             the formula grammar (unit names, percent words, density suffixes, exponent letter) put in
+             the place of a symbol;
+         (e) forced collisions: the structural graph of (b) over the alphabet {X, O} for EVERY symbol X of
+             the table (sentences containing X), so that every symbol that spells another token under
+             some case folding (Mg ~ mg, Cm ~ cm, W ~ wt, N ~ n, Dy ~ D y) stands first, after a leading
+             count, after an element count, inside parentheses, after every separator, before a density
+             tag; the symbol sequences that spell a token as a whole (W T); and the same compounds as a
+             PART of a quantity / percentage mixture (after a unit, after '%', after '//'; atom set only).
 Oracle = the reference denotation of the AST (exact Fractions): atoms (identical objects of the
          table, counts), the same through an own traversal of `.structure`, net charge, density
          (@d, @dn, @di; no tag on a compound of >= 2 atoms -> None); for (c) undefined / (d): any
@@ -41,13 +49,25 @@ META = dict(
                "deviation 3..5, nesting <= 3; "
                "(c) all one-atom strings of the table + undefined neighbours; "
                "(d) the malformation list at every slot of every (b)-sentence with <= 2 elements, deviation <= 1, nesting 1 (2 counts); "
+               "+ every token spelling at every symbol slot of the sentences over {O} of the same bound; "
+               "(e) every symbol X of the table (120): all sentences containing X over {X,O}, <= 2 elements, deviation <= 1, "
+               "and 3 elements with deviation 0; every X that spells another token under case folding (equal to a token, "
+               "beginning of one, or beginning with one: 49 symbols): deviation <= 2, nesting <= 2 (menus: count 2, leading "
+               "count 2 / .5, group count 2, own lightest isotope, own smallest charge, @1n, separators ' ', '', '+'); "
+               "the symbol sequences spelling a token (lexical layouts over adjacent, ' ', '+' with one decoration); "
+               "for the 49 symbols and 2 neutral ones 6 part shapes (X, XO, X2O, OX, 2XO, (XO)2) in 8 mixture frames, "
+               "and the symbol-shaped token spellings as unknown symbols in the same frames; "
                "public table"),
         thorough=("(a) <= 4 symbols (4 symbols: gaps adjacent or ' '), one decoration on <= 3 symbols (3 symbols: "
                   "only layouts with gaps adjacent, ' ', '+'); "
                   "(b) <= 3 elements over {H,O,Co,D}, deviation <= 2, nesting <= 2, all menus; + deviation = 3, "
                   "nesting <= 3 with reduced menus (2 counts, 1 isotope, 2 ions, 2 density tags, separators "
                   "'', ' ', '+'); + 4 elements over {H,Co,D}, deviation <= 2, nesting <= 3, reduced menus; "
-                  "(c) as quick; (d) base set <= 2 elements, deviation <= 2, nesting 1; "
+                  "(c) as quick; (d) base set <= 2 elements, deviation <= 2, nesting 1 (token spellings: same bound over {O}); "
+                  "(e) every symbol X: <= 2 elements over {X,O}, deviation <= 2, nesting <= 2 with wider menus (counts 2 / 0.5, "
+                  "leading counts 2 / 0.5 / .5, group counts 2 / 0.5, @1 / @1n / @1i, all 6 separators), 3 elements with "
+                  "deviation <= 1, and for the symbols that spell another token deviation = 3 with the quick menus; "
+                  "mixture parts for every symbol; "
                   "and the whole quick set again on a private table with customised masses")),
     assumptions=[
         "reading conventions of the reference (mc/ref/formula.py): count optional in group/element; "
@@ -66,6 +86,17 @@ META = dict(
         "el.isotopes, el.ions); atom masses for the @..n oracle are the library's (C06)",
         "the nesting of `.structure` is judged only through its meaning (products of counts summed per "
         "atom), so an equivalent structure stays silent",
+        "a quantity whose count is omitted ('LO' = one litre of O, 'mgO', '(gO)2': documented unit spelling at "
+        "the start, after '(' or after '//', followed by something that can start a part) is not judged: the count "
+        "is optional in `group` too and the unchanged parser reads it so; every OTHER spelling of a unit "
+        "(Kg, ML, Nm ...) in the place of a symbol is an unknown symbol and must be rejected; the lower-case 'n' is "
+        "the table's symbol of the neutron and is not among the spellings",
+        "a compound as PART of a mixture ('5g X', '5wt% A // X', ...; mass units and wt% only, positive amounts): "
+        "judged is only that the atoms of the mixture are exactly the atoms of its parts (the table's own "
+        "objects) and that a part naming an unknown symbol is rejected; the amounts belong to C11",
+        "which words are tokens of the mixture productions is taken from the guide and from formulas.py "
+        "(ref.TOKEN_CLASSES, plus the keys of formulas.LENGTH_UNITS / MASS_UNITS / VOLUME_UNITS of the tree under "
+        "test); it only selects inputs and names causes",
     ],
     level_text=("every sentence of the stated finite sets was parsed by the real parser and compared with "
                 "an independent denotation; nothing is claimed for sentences outside the bound"),
@@ -91,8 +122,13 @@ REDUCED = dict(counts=("2", "0.5"), gcounts=("2", "0.5"), leads=("2",), dens=(("
 # "chain": nothing but counts and parentheses, for deep count chains at a higher deviation bound
 CHAIN = dict(syms=("H", "O"), counts=("2", "0.5"), gcounts=("2", "0.5"), leads=("2",), dens=(),
              seps=((" ", 0), ("", 0)), max_isos=0, max_ions=0)
+# menus of the collision enumeration (e): the symbol under test carries its own isotope / ion tag
+SLIM = dict(counts=("2",), gcounts=("2",), leads=("2", ".5"), dens=(("1", "n"),),
+            seps=((" ", 0), ("", 0), ("+", 1)), max_isos=1, max_ions=1, own_tags=True)
+MID = dict(counts=("2", "0.5"), gcounts=("2", "0.5"), leads=("2", "0.5"), dens=(("1", ""), ("1", "n"), ("1", "i")),
+           seps=SEP_COST, max_isos=1, max_ions=1, own_tags=True)
 MENUS = dict(full={}, full3=dict(syms=("H", "Co", "D")), reduced=REDUCED, chain=CHAIN,
-             reduced3=dict(REDUCED, syms=("H", "Co", "D")))
+             reduced3=dict(REDUCED, syms=("H", "Co", "D")), slim=SLIM, mid=MID)
 
 
 # ------------------------------------------------------------------------------------ environment
@@ -130,6 +166,13 @@ class Env(object):
         self.atom_ok = R.make_atom_ok(T)
         self.atom_ok_liberal = R.make_atom_ok(T, liberal=True)
         self._bound = {}
+        # unit names the library itself knows (a unit added there joins the collision alphabet)
+        F = periodictable.formulas
+        self.lib_units = tuple(sorted(set(k for name in ("LENGTH_UNITS", "MASS_UNITS", "VOLUME_UNITS")
+                                          for k in (getattr(F, name, None) or {}) if isinstance(k, str))))
+        self.raw_symbols = frozenset(el.symbol for el in T)
+        self.collisions = dict((sym, R.collision_classes(sym, self.lib_units)) for sym in self.symbols)
+        self.looks_like = dict((sym, R.collision_classes(sym, self.lib_units, closest=True)) for sym in self.symbols)
 
     def bind(self, key):
         a = self._bound.get(key)
@@ -427,6 +470,9 @@ def shrink(env, ast, what):
 def classify(env, s, ast, what, f, memo):
     """Signature of a violation on a valid sentence: a named misreading if one explains the observed
     atoms, else the violation class + the decorations of the shrunk counterexample."""
+    cause = symbol_cause(env, ast, what)
+    if cause:
+        return "%s:%s" % (what, cause)
     if what in ("atoms", "structure-sum") and f is not None:
         for name, alt in hypotheses(ast):
             try:
@@ -440,6 +486,46 @@ def classify(env, s, ast, what, f, memo):
         small = shrink(env, ast, what)
         memo[mkey] = "%s:%s" % (what, "+".join(sorted(features(small))) or "plain")
     return memo[mkey]
+
+
+NEUTRAL = ("Zr", "Y")        # stand-ins that look like no token of the grammar
+
+
+def _stand_in(env, node, hit):
+    """Copy of the AST with every symbol that looks like another token (D, T: the feature 'alias' names
+    them already) replaced by a stand-in that does not; an isotope / ion tag becomes one the stand-in has."""
+    if isinstance(node, Compound):
+        return Compound(_stand_in(env, node.seq, hit), node.density)
+    if isinstance(node, Seq):
+        return Seq(tuple(_stand_in(env, g, hit) for g in node.groups), node.seps)
+    if isinstance(node, Explicit):
+        return Explicit(_stand_in(env, node.body, hit), node.count)
+    if isinstance(node, Implicit):
+        return Implicit(node.count, tuple(_stand_in(env, e, hit) for e in node.elems))
+    if node.symbol in R.ALIASES or not env.collisions.get(node.symbol):
+        return node
+    hit.update(env.looks_like[node.symbol])
+    z = NEUTRAL[0]
+    return Elem(z, None if node.iso is None else str(env.isotopes(z)[0]),
+                None if node.ion is None else ion_text(env.charges(z)[0]), node.count)
+
+
+def symbol_cause(env, ast, what):
+    """'symbol-looks-like-<token classes>' if the sentence contains symbols that spell another token of the
+    grammar under case folding AND the same sentence with stand-in symbols shows no violation: the cause is
+    the spelling of the symbol (read as a unit, a percent word, a density suffix ...), not the structure."""
+    hit = set()
+    alt = _stand_in(env, ast, hit)
+    if not hit:
+        return None
+    s2 = R.to_string(alt)
+    rd = R.readings(s2, env.atom_ok)
+    if len(set(R.den_key(R.denote(r)) for r in rd)) != 1:
+        return None
+    kind, res = env.run(s2)
+    if kind == "exc" or compare(env, R.denote(rd[0]), res) is not None:
+        return None
+    return "symbol-looks-like-" + "+".join(sorted(hit))
 
 
 # ------------------------------------------------------------------------------------ snippets
@@ -528,7 +614,7 @@ def check_valid(env, s, acc, ast=None, memo=None, seen=None):
                   standalone=snippet_valid(env, s, den), detail=dict(what=what))
 
 
-def check_reject(env, s, acc, signature, kind):
+def check_reject(env, s, acc, signature, kind, extra=None):
     """A string outside the documented language (or naming something the table does not define):
     the parser must raise."""
     acc.states += 1
@@ -547,7 +633,7 @@ def check_reject(env, s, acc, signature, kind):
         obs = "Formula %r" % (res.structure,)
     except Exception:
         obs = "returned %r" % (res,)
-    acc.violation(signature, dict(kind=kind, s=s, table=_tbl(env), signature=signature),
+    acc.violation(signature, dict(extra or {}, kind=kind, s=s, table=_tbl(env), signature=signature),
                   expected="an exception", observed=obs, standalone=snippet_reject(env, s))
 
 
@@ -638,11 +724,15 @@ class Gen(object):
     """Deviation-bounded enumeration of ASTs.  Every generator yields (node, n_elements, cost)."""
 
     def __init__(self, env, syms=SYMS, counts=COUNTS, gcounts=COUNTS, leads=LEADS, dens=DENS,
-                 seps=SEP_COST, max_isos=None, max_ions=None):
+                 seps=SEP_COST, max_isos=None, max_ions=None, own_tags=False):
         self.elem_menu = []
         for sym in syms:
-            isos = [] if sym in R.ALIASES else [str(a) for a in env.isotopes(sym) if a in ISO_MENU]
-            ions = [t for t in ION_MENU if R.ion_value(t) in env.symbols[sym][1]]
+            if own_tags:      # any symbol of the table: its own lightest isotope and smallest charge
+                isos = [] if sym in R.ALIASES else [str(a) for a in env.isotopes(sym)[:1]]
+                ions = [ion_text(q) for q in env.charges(sym)[:1]]
+            else:
+                isos = [] if sym in R.ALIASES else [str(a) for a in env.isotopes(sym) if a in ISO_MENU]
+                ions = [t for t in ION_MENU if R.ion_value(t) in env.symbols[sym][1]]
             if max_isos is not None:
                 isos = isos[-max_isos:] if max_isos else []
             if max_ions is not None:
@@ -929,6 +1019,225 @@ def shard_history(args):
     return acc
 
 
+# ------------------------------------------------------------------------------------ (e) forced collisions
+# Element symbols against every OTHER token class of the formula grammar (ref.TOKEN_CLASSES: unit names,
+# the words of the percentage forms, the density suffixes n/i, the aliases D/T, the exponent letter): the
+# quantity and percentage productions are tried before `compound`, and their tokens are letters too.  A
+# symbol that spells such a token under some case folding (Mg ~ mg, Cm ~ cm, W ~ wt, N ~ n, Dy ~ D + y) must
+# still be read as the symbol in EVERY position of a compound: first, after a leading count, after an
+# element count, inside parentheses, after each separator, before a density tag, alone.  The enumeration
+# is the structural one of (b) over the two-symbol alphabet {X, O} for EVERY symbol X of the table (O: {O, H}),
+# restricted to the sentences that contain X; X carries its own lightest isotope / smallest charge.
+def collision_symbols(env):
+    return sorted(sym for sym, classes in env.collisions.items() if classes)
+
+
+def token_words(env):
+    """[(class, word)] incl. the unit names the library knows."""
+    out = []
+    for name, words in R.TOKEN_CLASSES:
+        ws = list(words) + (list(env.lib_units) if name == "unit" else [])
+        out += [(name, w) for w in dict.fromkeys(ws)]
+    return out
+
+
+def token_symbol_sequences(env):
+    """Sequences of >= 2 table symbols whose concatenation spells a token word under case folding
+    (W T ~ wt): valid sentences that look like a token only as a whole."""
+    lows = sorted((sym.lower(), sym) for sym in env.symbols)
+
+    def seg(w):
+        if not w:
+            yield ()
+            return
+        for low, sym in lows:
+            if w.startswith(low):
+                for rest in seg(w[len(low):]):
+                    yield (sym,) + rest
+    out = set()
+    for _, w in token_words(env):
+        out.update(q for q in seg(w.lower()) if len(q) >= 2)
+    return sorted(out)
+
+
+def token_spellings(env):
+    """{spelling: class}: every token word as written, lower case, upper case and capitalised - the
+    candidates for 'unknown symbol that looks like another token' (those that ARE readable, such as Mg,
+    W or WT, are dropped by the derivability guard of (d))."""
+    out = {}
+    for name, w in token_words(env):
+        if name == "hydrogen-alias":
+            continue
+        for v in (w, w.lower(), w.upper(), w.capitalize()):
+            if v not in env.raw_symbols:      # 'n' is the table's symbol of the neutron: not judged
+                out.setdefault(v, name)
+    return out
+
+
+def _select(env, which, part, nparts):
+    """The part-th of nparts interleaved slices of: 'all' symbols of the table | 'coll' the symbols that
+    spell another token under case folding | 'coll+' those and the neutral stand-ins."""
+    syms = sorted(env.symbols) if which == "all" else collision_symbols(env)
+    if which == "coll+":
+        syms = sorted(set(syms) | set(NEUTRAL))
+    return tuple(syms[part::nparts])
+
+
+def shard_collision(args):
+    private, (which, part, nparts), menu, nmax, budget, depth, only = args
+    env = env_for(private)
+    syms = _select(env, which, part, nparts)
+    acc = Acc()
+    memo, seen = {}, set()
+    for X in syms:
+        gen = Gen(env, **dict(MENUS[menu], syms=(X, "H" if X == "O" else "O")))
+        for ast, nel, cost in gen.compounds(nmax, budget, depth):
+            if only is not None and not ((only[0] is None or nel == only[0]) and only[1] <= cost <= only[2]):
+                continue
+            sl = R.slots(ast)
+            if not any(r == "sym" and t == X for r, t in sl):
+                continue
+            check_valid(env, "".join(t for _, t in sl), acc, ast, memo, seen)
+    acc.count("collision_sentences", len(seen))
+    if part == 0:
+        acc.info["max_collision_symbols_%s" % which] = len(_select(env, which, 0, 1))
+    return acc
+
+
+def shard_token_sequences(args):
+    """The symbol sequences that spell a token as a whole, alone and next to O, every layout and every
+    single decoration of the lexical graph."""
+    private, = args
+    env = env_for(private)
+    acc = Acc()
+    memo, seen = {}, set()
+    seqs = token_symbol_sequences(env)
+    for q in seqs:
+        for syms in (q, q + ("O",), ("O",) + q):
+            for gaps in _layouts(len(syms), GAPS3):
+                ngroups = 1 + sum(1 for g in gaps if g is not None)
+                for deco in [NO_DECO] + list(lex_decorations(env, syms, ngroups)):
+                    ast = lex_ast(syms, gaps, deco)
+                    check_valid(env, R.to_string(ast), acc, ast, memo, seen)
+    acc.info["token_symbol_sequences"] = len(seqs)
+    acc.count("collision_sentences", len(seen))
+    return acc
+
+
+# -- a compound as a PART of a mixture: the positions after a unit, after '%' and after '//'.  Amounts are
+# C11's; judged here is only what C01 says about the part: its symbols are read as symbols, so the atoms of
+# the mixture are exactly the atoms of its parts (all amounts are positive), each the table's own object;
+# and a part naming an unknown symbol is rejected.  Mass units and wt% only (no density needed).
+MIX_FRAMES = (
+    ("after-unit", "5g {c}", ()),
+    ("after-unit", "5g {c} // 5g H2O", ("H2O",)),
+    ("after-unit", "5g H2O // 5g {c}", ("H2O",)),
+    ("after-unit", "5g H2O//5g {c}", ("H2O",)),
+    ("after-percent", "5wt% {c} // H2O", ("H2O",)),
+    ("after-percent", "5wt% H2O // 5% {c} // H2O", ("H2O",)),
+    ("after-part-separator", "5wt% H2O // {c}", ("H2O",)),
+    ("after-part-separator", "5wt% H2O//{c}", ("H2O",)),
+)
+MIX_PARTS = ("{x}", "{x}{o}", "{x}2{o}", "{o}{x}", "2{x}{o}", "({x}{o})2")
+
+def _part_atoms(env, part):
+    rd = R.readings(part, env.atom_ok)
+    dens = dict((R.den_key(R.denote(r)), R.denote(r)) for r in rd)
+    if len(dens) != 1:
+        raise MachineryError("mixture part %r has %d readings" % (part, len(dens)))
+    return set(next(iter(dens.values())).atoms)
+
+
+def _mix_observe(env, s, parts):
+    """None | (what, expected, observed)"""
+    keys = set()
+    for part in parts:
+        keys |= _part_atoms(env, part)
+    want = dict((id(env.bind(k)), env.bind(k)) for k in keys)
+    kind, res = env.run(s)
+    if kind == "exc":
+        return ("rejected-valid", "a Formula", "%s: %s" % (type(res).__name__, str(res)[:120]))
+    try:
+        got = dict((id(a), a) for a in res.atoms)
+    except Exception as e:
+        return ("observe-exception", "atoms readable", "%s: %s" % (type(e).__name__, e))
+    if set(got) != set(want):
+        return ("atom-set", sorted(str(a) for a in want.values()), sorted(str(a) for a in got.values()))
+    return None
+
+
+def check_mix_part(env, s, parts, frame, x, acc):
+    acc.states += 1
+    acc.transitions += 1
+    acc.evaluations += 1
+    acc.traces += 1
+    acc.nontrivial += 1
+    bad = _mix_observe(env, s, parts)
+    if bad is None:
+        acc.outcome("mixture-part:" + frame)
+        if acc.states % 1009 == 1:
+            acc.sample(dict(s=s, table=_tbl(env), parts=list(parts)))
+        return
+    what, expected, observed = bad
+    # cause: does it need this symbol?  the same sentence with a stand-in that looks like no token
+    tag = frame
+    if x is not None:
+        n = next(z for z in NEUTRAL if z != x)
+        s2, parts2 = s.replace(x, n), [q.replace(x, n) for q in parts]
+        try:
+            if _mix_observe(env, s2, parts2) is None:
+                tag = ("symbol-looks-like-" + "+".join(env.looks_like[x])) if env.looks_like.get(x) else "symbol-specific"
+        except MachineryError:
+            pass
+    acc.outcome("VIOLATION:mixture-part")
+    keys = sorted(set().union(*[_part_atoms(env, q) for q in parts]))
+    acc.violation("mixture-part:%s:%s" % (what, tag), dict(kind="mixpart", s=s, parts=list(parts), frame=frame, x=x,
+                                                          table=_tbl(env)),
+                  expected=expected, observed=observed,
+                  standalone=(_prelude(env) + "f = formula(%r, **kw)\nexpected = {%s}\n"
+                              "assert set(f.atoms) == expected, f.atoms\n" % (s, ", ".join(_pyatom(k) for k in keys))))
+
+
+def _mix_strings(x, o):
+    for frame, text, others in MIX_FRAMES:
+        for tpl in MIX_PARTS:
+            part = tpl.format(x=x, o=o)
+            yield frame, text.format(c=part), (part,) + others
+
+
+def unknown_part_ok(env, s, part):
+    """Guard of the 'unknown symbol in a mixture part' cases: the part is in the string and no liberal
+    reading of the compound grammar derives it."""
+    r = R._Reader(part, env.atom_ok_liberal, True)
+    return part in s and not any(r.sp(end) == len(part) for end, _ in r.compound(r.sp(0)))
+
+
+def shard_mix_parts(args):
+    private, (which, part, nparts), with_unknown = args
+    env = env_for(private)
+    syms = _select(env, which, part, nparts)
+    acc = Acc()
+    n = 0
+    for X in syms:
+        for frame, s, parts in _mix_strings(X, "H" if X == "O" else "O"):
+            check_mix_part(env, s, parts, frame, X, acc)
+            n += 1
+    if with_unknown:
+        for sp, cls in sorted(token_spellings(env).items()):
+            if not re.match(r"^[A-Z][a-z]*$", sp) or sp in env.symbols:
+                continue
+            for frame, s, parts in _mix_strings(sp, "O"):
+                if len(parts[0]) > len(sp) + 1:       # the parts 'U' and 'UO' / 'OU' only
+                    continue
+                if not unknown_part_ok(env, s, parts[0]):
+                    raise MachineryError("mixture part %r with the unknown symbol %r is derivable" % (parts[0], sp))
+                check_reject(env, s, acc, "accepted-malformed:unknown-symbol:spelled-like-%s:in-mixture-part" % cls,
+                             "mixpart-unknown", extra=dict(part=parts[0]))
+                n += 1
+    acc.count("mixture_part_strings", n)
+    return acc
+
+
 # ------------------------------------------------------------------------------------ (d) malformations
 # A dangling or doubled '+' is outside the grammar too, but the property text lists only unknown
 # symbols, undefined isotopes/charges and malformed brackets, counts and tags as "rejected with an
@@ -998,7 +1307,11 @@ def malformations(env, ast):
             yield "plus-doubled", put(i, "+ +")
         elif role == "dens":
             for mid, new in (("density-tag:bad-suffix", "@1x"), ("density-tag:twice", "@1@2"),
-                             ("density-tag:negative", "@-1"), ("density-tag:blank-after-at", "@ 1")):
+                             ("density-tag:negative", "@-1"), ("density-tag:blank-after-at", "@ 1"),
+                             # the suffix letters are n and i; N and I are symbols, and nothing follows a tag
+                             ("density-tag:suffix-upper-case", "@1N"), ("density-tag:suffix-upper-case", "@1I"),
+                             ("density-tag:symbol-after", "@1Na"), ("density-tag:symbol-after", "@1In"),
+                             ("density-tag:symbol-after", "@1nO"), ("density-tag:symbol-after", "@1iN")):
                 yield mid, put(i, new)
     yield "density-tag:leading", "@1" + s
     if JUDGE_DANGLING_PLUS:
@@ -1016,6 +1329,17 @@ def malformed_cases(env, nmax, budget, depth):
         nbase += 1
         for mid, m in malformations(env, ast):
             out.setdefault(m, mid)
+    # unknown symbols that look like another token of the grammar (Kg, Ml, NM, Wt, Vol, mg ...): every
+    # spelling at every symbol slot of every sentence of the same bound over the one-symbol alphabet {O}
+    spell = sorted(token_spellings(env).items())
+    gen = Gen(env, **dict(SLIM, syms=("O",)))
+    for ast, nel, cost in gen.compounds(nmax, budget, depth):
+        sl = R.slots(ast)
+        for i, (role, text) in enumerate(sl):
+            if role == "sym":
+                for sp, cls in spell:
+                    m = "".join(sp if j == i else t for j, (_, t) in enumerate(sl))
+                    out.setdefault(m, "unknown-symbol:spelled-like-" + cls)
     return out, nbase
 
 
@@ -1061,6 +1385,21 @@ def _plan(tier_quick, private, jobs):
     # (c) one-atom sweep
     plan += [(shard_atoms, (private, p, 16)) for p in range(16)]
     plan += [(shard_history, (private, s0, 3 if tier_quick else 4)) for s0 in HIST_STRINGS]
+    # (e) forced collisions: every symbol of the table x the structural positions; mixture parts
+    # (the workers read the symbols from their own table: shards are interleaved slices of the sorted list)
+    def sl(which, n):
+        return [(which, p, n) for p in range(n)]
+    if tier_quick or private:
+        plan += [(shard_collision, (private, c, "slim", 2, 2, 2, (None, 2, 2))) for c in sl("coll", 16)]
+        plan += [(shard_collision, (private, c, "slim", 2, 1, 1, None)) for c in sl("all", 6)]
+        plan += [(shard_collision, (private, c, "slim", 3, 0, 1, (3, 0, 0))) for c in sl("all", 2)]
+        plan += [(shard_mix_parts, (private, c, c[1] == 0)) for c in sl("coll+", 2)]
+    else:
+        plan += [(shard_collision, (private, c, "mid", 2, 2, 2, None)) for c in sl("all", 60)]
+        plan += [(shard_collision, (private, c, "slim", 3, 1, 1, (3, 0, 1))) for c in sl("all", 40)]
+        plan += [(shard_collision, (private, c, "slim", 2, 3, 2, (None, 3, 3))) for c in sl("coll", 24)]
+        plan += [(shard_mix_parts, (private, c, c[1] == 0)) for c in sl("all", 4)]
+    plan.append((shard_token_sequences, (private,)))
     # (d) malformations
     if tier_quick or private:
         plan += [(shard_malformed, (private, 2, 1, 1, p, 16)) for p in range(16)]
@@ -1120,6 +1459,15 @@ def replay(ctx, case, signature=None):
         ctx.acc.merge(in_fork(work))
         return
     s = case["s"]
+    if kind == "mixpart":
+        check_mix_part(env, s, tuple(case["parts"]), case.get("frame", "part"), case.get("x"), ctx.acc)
+        return
+    if kind == "mixpart-unknown":
+        if not unknown_part_ok(env, s, case["part"]):
+            raise MachineryError("replay: the part %r of %r is derivable from the documented grammar" % (case["part"], s))
+        check_reject(env, s, ctx.acc, case.get("signature") or signature or "accepted-malformed", kind,
+                     extra=dict(part=case["part"]))
+        return
     if kind == "valid":
         check_valid(env, s, ctx.acc)
     elif kind == "atom":
